@@ -11,7 +11,7 @@ chains_idx[k], with that chain's own particle map and the event data of that cha
 import sympy as sp
 
 from ..model import AnalysisError
-from ..sym import PyFunc, SelfObj, Translator, Unmodelled
+from ..sym import PyFunc, Raised, SelfObj, Translator, Unmodelled
 
 CORE = "tf_pwa/amp/core.py"
 METHODS = ["get_m_dep", "get_factor_angle_amp", "get_angle_amp"]
@@ -317,3 +317,74 @@ def fitfraction_functions_by_interpretation(repo, chk):
             chk.violation("A-frac", fn.key, "algebra", "%s: %s" % (fname, bad[0]), file=FFm, line=fn.lineno)
         decided.add(fn.key)
     return decided
+
+
+def check_selection_maps(repo, chk, rule="B-select"):
+    """the chain maps handed to get_amp / get_m_dep cover exactly the selected chains - the empty selection included"""
+    chk.rule(rule, "DecayGroup.get_chains_map (the particle-level one every amplitude traversal calls with the tuple of used chains) interpreted on a group of three chains of two topologies (topology_structure, the DecayChain constructor, topology_same / topology_map as probes) for no argument, the whole group, one chain, two chains and the EMPTY selection: the maps hold exactly the selected chains - an empty selection (a resonance that owns no chain, an empty group of partial_weight) stays empty, so its partial sum is zero and not the full amplitude")
+    fns = [g for g in repo.func_by_name.get("get_chains_map", []) if g.cls is not None and g.mod.rel == "tf_pwa/particle.py"]
+    if not fns:
+        raise AnalysisError("anchor vanished: particle.DecayGroup.get_chains_map")
+    fn = fns[0]
+    topo = {"chain0": "topoX", "chain1": "topoY", "chain2": "topoX"}
+    chains = [_Chain(k) for k in sorted(topo)]
+    for c in chains:
+        c.tok_attrs = {}
+
+    def mk_chain(tr, args, kwargs, node):
+        t = [a for a in args if isinstance(a, list)][0][0]
+        return SelfObj(None, {"topology_same": PyFunc(lambda other, identical=False, t_=t: topo[str(other)] == t_), "topology_map": PyFunc(lambda other, t_=t: ("map", t_, str(other)))})
+
+    dcs = [c for c in repo.classes_by_name.get("DecayChain", []) if c.mod.rel == "tf_pwa/particle.py"] if hasattr(repo, "classes_by_name") else [repo.cls("tf_pwa/particle.py::DecayChain")]
+    hooks = {"allow_attr_store": True, "allow_raise": True, dcs[0].key: mk_chain}
+    for g in repo.func_by_name.get("topology_structure", []):
+        if g.cls is fn.cls:
+            hooks[g.key] = lambda tr, args, kwargs, node: [("topoX",), ("topoY",)]
+    bad = None
+    n = 0
+    for sel, label in ((None, "no argument"), (tuple(chains), "all three"), ((chains[1],), "chain1"), ((chains[2], chains[0]), "chain2, chain0"), ((), "the empty selection"), ([], "the empty list")):
+        so = SelfObj(fn.cls, {"chains": list(chains)})
+        tr = Translator(repo, hooks=hooks, max_depth=2)
+        try:
+            out = tr.call_fn(fn, [] if sel is None else [sel], self_obj=so)
+        except Unmodelled as e:
+            raise AnalysisError("particle.DecayGroup.get_chains_map cannot be interpreted on the probe group (%s): %s" % (label, e))
+        n += 1
+        want = sorted(str(c) for c in (chains if sel is None else sel))
+        got = sorted(str(c) for m_ in (out if isinstance(out, list) else []) for c in m_) if isinstance(out, list) else None
+        wrong_class = [str(c) for m_ in (out if isinstance(out, list) else []) for c, v in m_.items() if not (isinstance(v, tuple) and v[1] == topo[str(c)])]
+        if (got != want or wrong_class) and bad is None:
+            bad = "for %s the maps hold the chains %s, expected %s%s" % (label, got, want, (" (mapped onto another topology: %s)" % wrong_class) if wrong_class else "")
+    chk.oblige(rule, "get_chains_map covers exactly the selected chains for %d selections (none given, all, one, two, empty tuple, empty list)" % n, bad is None)
+    if bad:
+        chk.violation(rule, fn.key, "selection", "DecayGroup.get_chains_map: %s - get_amp / get_m_dep pass the tuple of used chains, so the partial sum of an empty selection (set_used_res with a resonance that owns no chain, an empty group of partial_weight) becomes the full amplitude and the fit fractions of such entries are not zero" % bad, file=fn.mod.rel, line=fn.lineno)
+
+
+def check_masked_read(repo, chk, rule="V-mask"):
+    """a coupling masked to a value reads as that value - zero included (partial waves are obtained by masking to 0)"""
+    chk.rule(rule, "VarsManager.read interpreted with the mask tables {}, {other: 0}, {name: 2.5}, {name: 0.0} and {name: 0}: a masked variable reads as its mask (a constant for the tape), an unmasked one as the variable - the value 0 is a mask like any other (mask_params / factor_iteration switch a chain off by masking its coupling to 0)")
+    vm = repo.cls("tf_pwa/variable.py::VarsManager")
+    fn = vm.methods.get("read")
+    if fn is None:
+        raise AnalysisError("anchor vanished: VarsManager.read")
+    V = sp.Symbol("V_name", real=True)
+    bad = None
+    cases = [({}, V, "no mask"), ({"other": 0.0}, V, "another variable masked"), ({"name": 2.5}, sp.Float(2.5), "masked to 2.5"), ({"name": 0.0}, sp.Integer(0), "masked to 0.0"), ({"name": 0}, sp.Integer(0), "masked to 0")]
+    for masks, want, label in cases:
+        so = SelfObj(vm, {"variables": {"name": V, "other": sp.Symbol("V_other", real=True)}, "mask_vars": {k: (sp.Float(v) if isinstance(v, float) else sp.Integer(v)) for k, v in masks.items()}, "pre_trans": {}, "bnd_dic": {}, "complex_vars": {}})
+        tr = Translator(repo, hooks={"allow_attr_store": True, "allow_raise": True}, max_depth=2)
+        try:
+            got = tr.call_fn(fn, ["name"], self_obj=so)
+        except Unmodelled as e:
+            raise AnalysisError("VarsManager.read cannot be interpreted (%s): %s" % (label, e))
+        except Raised as e:
+            got = "raises %s" % e
+        try:
+            same = sp.simplify(sp.sympify(got) - want) == 0
+        except (TypeError, sp.SympifyError):
+            same = False
+        if not same and bad is None:
+            bad = "%s: read('name') gives %s, expected %s" % (label, got, want)
+    chk.oblige(rule, "VarsManager.read on %d mask tables" % len(cases), bad is None)
+    if bad:
+        chk.violation(rule, fn.key, "masked-read", "%s - a chain switched off by masking its coupling to zero keeps its full amplitude: the partial waves no longer add up to the full amplitude and the fit fraction of a switched-off resonance is not zero" % bad, file="tf_pwa/variable.py", line=fn.lineno)
